@@ -286,6 +286,13 @@ def maint_scenario(rng, size='quick', **over):
     lines = [line, 'states']
     seed = 1
     y = rng.random()
+    if y > 0.9:
+        # a second restore after the hole left by the first one: close, restore, close, wait for the dump, restore, write
+        lines += [f'w {keys[0]} 5 - 3 {seed}', 'states', 'close_active', 'states', 'restore_active', 'states',
+                  f'w {keys[1]} 5 - 3 {seed + 1}', 'states', 'close_active', 'states', rng.choice(['settle', 'quiesce']), 'states',
+                  'restore_active', 'states', f'w {keys[0]} 7 - 3 {seed + 2}', 'states']
+        seed += 3
+        lines += queries('all', keys, absent)
     if y < 0.2:
         pre, seed = offload_grow_prelude(rng, keys, seed)
         lines += pre + queries('all', keys, absent)
@@ -341,6 +348,22 @@ def worker_scenario(rng, size='quick', **over):
                 lines += [f'w {k} {rng.choice(TS_POOL)} - 5 {seed}', 'states']
                 seed += 1
     y = rng.random()
+    if y > 0.93:
+        # the creation of the next blob fails once while the worker serves a rotation request; once the fault is gone
+        # the next writes over the limit must lead to a switch again
+        lines = [line, 'states']
+        for i in range(maxdata):
+            lines += [f'w {rng.choice(keys)} {rng.choice(TS_POOL)} - 5 {i + 1}', 'states']
+        lines += ['wait 260', 'nomodel', f'fault create 0 .blob fail:{rng.choice([28, 5])}', f'w {keys[0]} 9 - 5 50', 'states', 'clearfaults',
+                  'alive', 'wait 260', f'w {keys[1]} 9 - 5 51', 'states', 'wait 260', f'w {keys[2]} 9 - 5 52', 'states', 'alive',
+                  'settle', 'close', 'open', 'states', 'counts']
+        return lines
+    if y > 0.86:
+        # two explicit dump requests separated by idle time: the second one must be served like the first
+        lines = [line.replace(f'maxdata={maxdata}', 'maxdata=1000000'), 'states', f'w {keys[0]} 5 - 5 1', 'states', 'nomodel', 'close_active', 'states',
+                 'wait 1500', 'quiesce', 'res @alldumped', f'wait {rng.choice([300, 600])}', f'w {keys[1]} 5 - 5 2', 'states', 'close_active', 'states',
+                 'wait 1500', 'quiesce', 'res @alldumped', 'alive', 'close', 'open', 'states', 'counts']
+        return lines
     if y < 0.08:
         # the worker is kept busy by a slow predicate while 1024 requests fill its queue to capacity; the writes that
         # take the active blob over its limit happen right then: the rotation must still come (multi-thread runtime:
@@ -559,6 +582,20 @@ def sync_stall_scenario(rng, size='quick', **over):
             seed += 1
         lines += ['wait 700', 'clearfaults', 'states', 'trace', 'fstates']
     lines += ['settle', 'trace', 'fstates', 'close', 'trace', 'open', 'trace', 'fstates']
+    return lines
+
+
+def sync_closerace_scenario(rng, size='quick', **over):
+    """C12: a write is acknowledged while `try_close_active_blob` is inside the sync of the active blob: after a successful
+    close no un-synced byte of that blob remains (the write belongs to the next blob)"""
+    limit = rng.choice([0, 100, 33554432])
+    c, line = cfg_line(rng, dup=1, dirty=limit, rt=rng.choice(['mt', 'ct']), **over)
+    keys = mk_keys(rng, c['key'], 3)
+    lines = [line, 'states', 'trace', 'fstates']
+    for i in range(rng.randint(1, 3)):
+        lines += [f'w {rng.choice(keys)} 5 - {rng.choice([10, 300, 5000])} {i + 1}', 'states', 'trace', 'fstates']
+    lines += ['quiesce', 'nomodel', f'closerace {rng.choice([250, 400])} {rng.choice(keys)} 7 {rng.choice([10, 5000])} 9', 'states', 'trace', 'fstates',
+              f'w {rng.choice(keys)} 9 - 10 10', 'states', 'trace', 'fstates', 'settle', 'trace', 'fstates', 'close', 'trace', 'open', 'trace', 'fstates']
     return lines
 
 
@@ -801,6 +838,24 @@ def filter_scenario(rng, size='quick', **over):
         # be merged, a group holding both must answer "maybe" (judged by the no-false-negative oracle only)
         el, k, mb = bloom.split(',')
         k2 = int(k) + rng.choice([1, -1]) if int(k) > 1 else int(k) + 1
+        if rng.random() < 0.4:
+            # a session WITHOUT bloom filters in between (its index files carry an empty bloom section), then bloom on again
+            for kk in keys[:2]:
+                lines += [f'w {kk} {rng.choice(TS_POOL)} - 3 {seed}', 'states']
+                seed += 1
+            lines += [rng.choice(['close_active', 'force always']), 'quiesce', 'states', 'settle', 'nomodel', 'restart bloom=off', 'states']
+            for b in range(rng.choice([2, 3])):
+                for kk in (keys[2 + b % 2], absent[1]):
+                    lines += [f'w {kk} {rng.choice(TS_POOL)} - 3 {seed}', 'states']
+                    seed += 1
+                lines += ['force always', 'quiesce', 'states']
+            lines += ['settle', f'restart bloom={bloom}', 'states']
+            for b in range(rng.choice([1, 2])):
+                lines += [f'w {keys[-1]} {rng.choice(TS_POOL)} - 3 {seed}', 'states', 'force always', 'quiesce', 'states']
+                seed += 1
+            for kk in keys + absent:
+                lines += [f'cf {kk}', f'cfs {kk}', f'gfc {kk}', f'c {kk}', f'r {kk}']
+            return lines
         for kk in keys[:3]:
             lines += [f'w {kk} {rng.choice(TS_POOL)} - 3 {seed}', 'states']
             seed += 1
